@@ -1,11 +1,14 @@
 """C13 -- ONNX -> Python (proto2python) -> ONNX round-trips to an equivalent model (DESIGN.md section 5, C13).
 
 Proof side   coq/Export/Cleanup.v (+Proofs): the exporter's name clean-up and short-name mapper, for all strings;
-             coq/Export/Unssa.v (+Proofs): the assignments emitted for an ONNX Loop compute the loop-carried values.
+             coq/Export/Unssa.v (+Proofs): the assignments emitted for an ONNX Loop compute the loop-carried values;
+             coq/Export/Emit.v (+Proofs): the statements emitted for a straight-line graph, and `export_sound`:
+             eval_script (export_graph g) = eval_graph g for every kernel semantics (Props/C13_emit.v).
 Tie          translator: keyword list / operator table of onnx_export.py -> coq/Gen/ExportTables.v (theorems re-proved
              against it); correspondence: real `_cleanup_variable_name` and `_make_short_name_mapper` vs the Gallina
              model on generated ASCII strings; verified checker `collision_freeb` evaluated in Coq on the real names
-             of every generated model.
+             of every generated model; the statements the real proto2python prints for straight-line models and
+             functions (parsed back with `ast`) vs `export_graph` on the same graph, compared inside Coq (harness/c13_emit.py).
 Direct oracle generated models / functions / script functions x export options: proto2python -> ast.parse -> exec ->
              to_model_proto -> same interface -> same outputs on onnxruntime (ORT_DISABLE_ALL) on >= 3 feeds.
 """
@@ -208,6 +211,11 @@ KNOWN_CLASSES = {
         "an omitted node output is printed as the variable _<index>; a real value named _<index> is silently overwritten by it",
     "C13:names:non-ascii-alnum-not-identifier":
         "a non-ASCII character for which str.isalnum() holds but which cannot occur in an identifier (e.g. superscript two) is kept: SyntaxError",
+    "C13:comments:node-name-with-line-break:code-injected":
+        "a node name is appended as `  # <name>`; a line break in the name ends the comment and the rest of the name becomes program text",
+    "C13:docstring:quotes-or-trailing-backslash:SyntaxError":
+        "graph.doc_string / function doc_string is pasted between triple quotes; a doc string containing three double quotes, or ending in a double quote "
+        "or a backslash, gives source that is not valid Python",
 }
 
 
@@ -250,6 +258,8 @@ def classify(case, info, collide, opts, out, cleanup):
         return "C13:loop:trip-count-and-condition:not-reconvertible"
     if stage in ("exec", "to_proto") and exc == "RuntimeError" and "default_opset must be specified" in msg and opts["use_operators"]:
         return "C13:use_operators:no-opset-call-left"
+    if stage in ("mismatch", "load", "run", "interface") and info["optional_outputs"] and any(re.fullmatch(r"_\d+", n) for n in G.all_names(case["proto"])):
+        return "C13:names:missing-output-placeholder-collides"
     if collide:
         if stage in ("mismatch", "load", "run", "interface"):
             return "C13:names:collision-after-cleanup:silently-merged"
@@ -351,6 +361,105 @@ def corr_names(ctx, tab):
         ctx.tie_broken("correspondence", "short-names", f"_make_short_name_mapper on {seqs[i]!r} gave {obs[i]!r}, model differs")
     ctx.obligation(f"correspondence: real _make_short_name_mapper = Export/Cleanup.v `short_rename_all` on {nseq} name sequences", not bad)
     ctx.cover(cleanup_strings=len(names), cleanup_disagreements=bad_total, short_name_sequences=nseq)
+
+
+# ----------------------------------------------------------------------------------------------- correspondence: emission
+
+def _first_difference(code, rename):
+    return ("rename=True: " if rename else "") + " | ".join(l.strip() for l in (code or "").splitlines() if "=" in l or "return" in l)[:500]
+
+
+def corr_emit(ctx, workdir, cleanup, stats):
+    """the statements the REAL exporter prints for straight-line graphs = Export/Emit.v `export_graph` (the function the
+    soundness theorem of Props/C13_emit.v is about).  A disagreement: the round-trip oracle is evaluated on that model
+    first; a failure outside the catalogued classes is a violation with that input, anything else a broken tie.
+    -> the template models (also handed to the round-trip oracle by the caller)"""
+    from collections import Counter
+
+    import onnx
+
+    from harness import c13_emit as M
+    quick = ctx.tier == "quick"
+    cases, rejected = M.straight_cases(ctx.rng, 12 if quick else 60, 40 if quick else 240, 8 if quick else 30)
+    skipped, items = Counter(), []
+    for c in cases:
+        if not M.is_straight(c["proto"]):
+            skipped["not straight-line"] += 1
+            continue
+        for rename in (False, True):
+            opts = dict(zip(OPT_NAMES, (rename, False, False, False)))
+            try:
+                obs = M.observe(c, rename)
+            except M.OutOfScope as e:
+                skipped[str(e)[:60]] += 1
+                continue
+            except M.ParseError as e:
+                ctx.tie_broken("translator", "emit:generated-source", f"{c['id']} [{opt_tag(opts)}]: {e}")
+                continue
+            except Exception as e:  # noqa: BLE001 -- the exporter refused a model of the class: the oracle names the failure
+                _emit_disagreement(ctx, c, opts, workdir, cleanup, f"exporter raised {type(e).__name__}: {str(e)[:200]}")
+                continue
+            items.append((c, rename, obs))
+    bad_total, in_domain, compared = 0, 0, 0
+    for lo in range(0, len(items), 50):
+        shard = items[lo:lo + 50]
+        ok, vals, raw = ctx.coq_eval(M.REQUIRES, M.coq_body(shard), name="emit")
+        if not ok or len(vals) < 3:
+            ctx.tie_broken("correspondence", "emit:model-evaluation", raw[-800:])
+            bad_total += 1
+            continue
+        bad = set(common.parse_nat_list(vals[0]))
+        hyp = re.findall(r"true|false", vals[1])
+        inj = re.findall(r"true|false", vals[2])
+        if len(hyp) != len(shard) or len(inj) != len(shard):
+            ctx.tie_broken("correspondence", "emit:model-evaluation", f"{len(hyp)}/{len(inj)} verdicts for {len(shard)} cases")
+            bad_total += 1
+            continue
+        for k, (c, rename, obs) in enumerate(shard):
+            compared += 1
+            in_domain += hyp[k] == "true"
+            is_model = isinstance(c["proto"], onnx.ModelProto)
+            ctx.case(("emit", c["kind"], c["profile"], rename, hyp[k], inj[k], tuple(sorted(set(c.get("templates", [])))), min(obs["statements"], 12)))
+            # the names condition of the theorem, cross-checked with the real clean-up on the model's own names
+            if not rename:
+                names = G.all_names(c["proto"])
+                real_free = len({cleanup(n) for n in names}) == len(set(names))
+                if real_free and inj[k] == "false" and not any(re.fullmatch(r"_\d+", cleanup(n)) for n in names):
+                    ctx.tie_broken("correspondence", "emit:rename_injb", f"{c['id']}: Coq says the renamer collides, the real clean-up is injective on {names!r}")
+                if not real_free and inj[k] == "true":
+                    ctx.tie_broken("correspondence", "emit:rename_injb", f"{c['id']}: Coq says collision-free, the real clean-up merges names of {names!r}")
+            if k in bad:
+                bad_total += 1
+                opts = dict(zip(OPT_NAMES, (rename, False, False, False)))
+                _emit_disagreement(ctx, c, opts, workdir, cleanup, "printed statements differ from export_graph: " + _first_difference(obs["code"], rename))
+            elif compared % 37 == 1:
+                ctx.sample({"case": c["id"], "options": "rename" if rename else "default", "outcome": "printed program = export_graph",
+                            "statements": obs["statements"], "theorem_hypotheses_hold": hyp[k] == "true", "model": is_model})
+    ctx.obligation(f"correspondence: the statements printed by the real proto2python = Export/Emit.v `export_graph` on {compared} "
+                   f"(straight-line model or function, rename) pairs", bad_total == 0 and compared > 0, f"{bad_total} disagreements")
+    ctx.obligation("emit tie health: at least a third of the compared programs satisfy every hypothesis of C13_export_straightline_sound_partial",
+                   in_domain * 3 >= compared, f"{in_domain} of {compared}")
+    ctx.cover(emit_programs_compared=compared, emit_in_theorem_domain=in_domain, emit_disagreements=bad_total,
+              emit_skipped=dict(skipped), emit_generated_invalid=rejected)
+    return [c for c in cases if c.get("origin") == "emit-templates" and c["kind"] == "model"]
+
+
+def _emit_disagreement(ctx, c, opts, workdir, cleanup, detail):
+    info = analyze(c["proto"])
+    names = G.all_names(c["proto"])
+    fr = len({cleanup(n) for n in names}) == len(set(names))
+    try:
+        out = R.round_trip(c, opts, workdir, R.reference_outputs(c), cleanup, check_input_names=fr)
+    except Exception as e:  # noqa: BLE001 -- the original does not run: no verdict from the oracle
+        ctx.tie_broken("correspondence", "emit", f"{c['id']} [{opt_tag(opts)}]: {detail}; oracle not applicable ({type(e).__name__})")
+        return
+    if out["stage"] != "ok":
+        key = classify(c, info, not fr, opts, out, cleanup)
+        if key not in KNOWN_CLASSES:
+            ctx.violation(key, f"{c['id']} [{opt_tag(opts)}]: {out['stage']} {out['exc'] or ''} {out['msg'] or out['detail']} ({detail})"[:500],
+                          _replay(c, opts, out))
+            return
+    ctx.tie_broken("correspondence", "emit", f"{c['id']} [{opt_tag(opts)}]: {detail}; round trip: {out['stage']}")
 
 
 def corr_const_repr(ctx, workdir):
@@ -629,6 +738,26 @@ def probes(ctx, workdir, cleanup, stats):
     ctx.case(("probe", "placeholder", out["stage"]))
     if out["stage"] not in ("ok", "export"):
         ctx.violation("C13:names:missing-output-placeholder-collides", KNOWN_CLASSES["C13:names:missing-output-placeholder-collides"], _replay(case, none, out))
+    # free text of the model that reaches the generated source: node names (comments) and doc strings
+    m = mk([h.make_node("Neg", ["x"], ["t"], name="first\n    t = opset18.Abs(x)"), h.make_node("Identity", ["t"], ["y"])], ["x"], ["y"])
+    case = {"id": "probe:node-name-line-break", "kind": "model", "proto": m, "feeds": [{"x": v} for v in x3], "large_inits": [], "profile": "probe"}
+    out = R.round_trip(case, none, workdir, R.reference_outputs(case), cleanup)
+    stats["runs"] += 1
+    ctx.case(("probe", "node-name-line-break", out["stage"]))
+    if out["stage"] not in ("ok", "export"):
+        key = "C13:comments:node-name-with-line-break:code-injected"
+        ctx.violation(key, KNOWN_CLASSES[key], _replay(case, none, out))
+    for doc in ('say """hi""" there', "ends with a backslash \\", "plain words", "it's 'quoted' and \"double\"", "two\nlines"):
+        m = mk([h.make_node("Neg", ["x"], ["y"])], ["x"], ["y"])
+        m.graph.doc_string = doc
+        case = {"id": f"probe:doc-string:{doc[:12]!a}", "kind": "model", "proto": m, "feeds": [{"x": v} for v in x3], "large_inits": [], "profile": "probe"}
+        out = R.round_trip(case, none, workdir, R.reference_outputs(case), cleanup)
+        stats["runs"] += 1
+        ctx.case(("probe", "doc-string", '"""' in doc, doc.endswith("\\"), out["stage"]))
+        if out["stage"] not in ("ok", "export"):
+            key = "C13:docstring:quotes-or-trailing-backslash:SyntaxError" if out["stage"] == "syntax" else \
+                f"C13:unexpected:model:{out['stage']}:{out['exc']}:default:doc-string-probe"
+            ctx.violation(key, KNOWN_CLASSES.get(key, f"doc string {doc!r}: {out['stage']} {out['exc']} {out['msg'][:200]}"), _replay(case, none, out))
     # non-ASCII names (outside the Coq model; oracle only)
     for nm in ("x²", "été", "名前", "a·b", "①"):
         m = mk([h.make_node("Neg", ["x"], [nm]), h.make_node("Abs", [nm], ["y"])], ["x"], ["y"])
@@ -686,6 +815,9 @@ def run(ctx):
                "with rtol 1e-5 / atol 1e-6 and NaN = NaN (inlined literals re-enter through CastLike), other dtypes exactly")
     ctx.assume("graph outputs are compared by position, count and type; output *names* of Loop/If results are not preserved by design "
                "(the Python variable is an alias) and are only counted; input names are compared modulo the clean-up")
+    ctx.assume("emission theorem (Export/Emit.v): straight-line graphs of default-domain operators; attribute values abstract (their printed text is "
+               "evaluated and re-encoded by the harness before the comparison); use_operators / inline_const / skip_initializers off; "
+               "an omitted node output is the empty name at its position; Python reading of the program = Script/PySem.v")
     ctx.assume("un-SSA theorem (Export/Unssa.v): the translated loop body is an abstract state transformer satisfying its specification "
                "(Section hypothesis body_spec); abstract values, no scan outputs")
     ctx.trust("onnx.checker (full_check) filters generator output; onnxruntime executes both sides; ast.parse/importlib execute the generated text")
@@ -701,6 +833,7 @@ def run(ctx):
     corr_names(ctx, tab)
     corr_const_repr(ctx, workdir)
     check_keyword_table(ctx, tab, workdir, cleanup)
+    templ = corr_emit(ctx, workdir, cleanup, stats)
 
     quick = ctx.tier == "quick"
     models, rej1 = G.random_models(ctx.rng, 76 if quick else 180)
@@ -727,7 +860,11 @@ def run(ctx):
         else:
             c["opts"] = m_opts
     ranks = [c for c in ranks if c["opts"]]
-    cases = scripts + hand + attrs + ranks + models + funcs
+    # the emission templates (omitted middle inputs, omitted / several outputs, attribute kinds) through the oracle as well
+    templ = templ[: (26 if quick else 140)]
+    for c in templ:
+        c["opts"] = [ALL_OPTS[0]] + ([ctx.rng.choice([o for o in ALL_OPTS[1:] if not o["rename"] and not o["skip_initializers"]])] if not quick else [])
+    cases = scripts + hand + attrs + ranks + models + funcs + templ
     stats["generated_invalid_skipped"] = rej1 + rej2 + rej3
     stats["rank_const_illegal_combinations"] = rej4
     run_cases(ctx, cases, workdir, cleanup, stats)
@@ -751,4 +888,4 @@ def run(ctx):
               not_modelled="attribute pretty-printing, _handle_attrname_conflict, use_operators/inline_const text (observed through execution only); "
                            "If nodes whose outputs are all unused are not generated (the converter refuses them)")
     if ctx.tier == "thorough":
-        ctx.coqchk(["Props.C13", "Props.C13_unssa", "Props.C13_constrepr"])
+        ctx.coqchk(["Props.C13", "Props.C13_unssa", "Props.C13_constrepr", "Props.C13_emit"])
